@@ -20,6 +20,7 @@ import (
 func init() {
 	pn := "internal/printer/nodes.go"
 	register(&Property{ID: "C07", Run: runC07, Mutants: []Mutant{
+		{Name: "wa printer: var elided for untyped local declarations", File: pn, Old: " || !valueSpecsHaveType(d.Specs) {", New: " {", Expect: "keyword-elision-needs-type"},
 		{Name: "wa printer: spread call gets a trailing comma before the dots", File: pn, Old: "p.exprList(x.Lparen, x.Args, depth, 0, x.Ellipsis, false)", New: "p.exprList(x.Lparen, x.Args, depth, commaTerm, x.Rparen, false)", Expect: "printer-sibling-agreement"},
 		{Name: "wa printer: only string literals bypass the tabwriter", File: "internal/printer/printer.go", Old: "\t\t\tdata = x.Value\n\t\t\tisLit = true", New: "\t\t\tdata = x.Value\n\t\t\tisLit = x.Kind == token.STRING", Expect: "printer-origin-agreement"},
 		{Name: "wz printer: literals are not shielded from the tabwriter", File: "internal/printer/w2printer/printer.go", Old: "\t\t\tdata = x.Value\n\t\t\tisLit = true", New: "\t\t\tdata = x.Value\n\t\t\tisLit = false", Expect: "printer-sibling-agreement"},
@@ -90,6 +91,7 @@ func runC07(c *Ctx) {
 	}
 	if wa, wz := p.MustPkg("printer-sibling-agreement", "internal/printer"), p.MustPkg("printer-sibling-agreement", "internal/printer/w2printer"); wa != nil && wz != nil {
 		c07SiblingAgreement(c, p, wa, wz)
+		c07KeywordElision(c, p, wa)
 	}
 }
 
